@@ -1002,6 +1002,7 @@ class PX:
         return first
 
     zone_check = None  # optional feasibility oracle (set by rules that want pruning)
+    loop_assume = None  # optional callback(px, state, frame, header): assume a loop invariant on the havocked places
 
     def _is_boolish(self, d):
         if d in self.__dict__.get("_bool_terms", ()):
@@ -1072,6 +1073,8 @@ class PX:
             st.extra.setdefault("loop_entry_values", {})[(info.name, header, self._place_key(root, path))] = old
             self._write(st, root, path, nv)
         self.emit(st, {"k": "loop_enter", "fn": info.name, "bb": header})
+        if self.loop_assume:
+            self.loop_assume(self, st, fr, header)
 
     def _place_key(self, root, path):
         if root[0] == "L":
